@@ -185,6 +185,48 @@ def case(item):
     return res
 
 
+def eviction_case(item):
+    """One process, no clears: far more distinct children lists than the memos hold (1024 pairwise / 4096 list entries), so
+    entries are evicted and their arrays freed; interleaved with repeats of earlier lists built as NEW array objects.  Every
+    call is shadowed by the unmemoised function."""
+    n_lists, n_children, grid, dims, seed = item
+    import phyclone.tree.tree_node as tn
+
+    install()
+    S.clear_caches(all_caches=True)
+    del MISMATCH[:]
+    STATS.clear()
+    res = {"item": item, "n": 0, "problems": [], "stats": {}}
+
+    def make(k):
+        rs = np.random.RandomState(seed * 100003 + k)
+        out = []
+        for c in range(n_children + (k % 2)):
+            v = rs.gamma(0.7, size=(dims, grid)) + 1e-6
+            out.append(np.log(v / v.sum(axis=1, keepdims=True)) - rs.uniform(0, 30))
+        return out
+
+    try:
+        for k in range(n_lists):
+            tn.compute_log_S(make(k))
+            res["n"] += 1
+            if k % 3 == 0 and k > 10:
+                for back in (1, 7, 600, 1500, 3000):
+                    if k - back >= 0:
+                        lst = make(k - back)
+                        if k % 2:
+                            lst = lst[::-1]
+                        tn.compute_log_S(lst)
+                        res["n"] += 1
+            if MISMATCH:
+                res["problems"].append("after %d children lists in one process: %s" % (k + 1, MISMATCH[0]))
+                break
+    except Exception as e:
+        res["problems"].append("raised %s: %s" % (type(e).__name__, str(e)[:120]))
+    res["stats"] = dict(STATS)
+    return res
+
+
 def key_family_work(item):
     """Keys of the two array-keyed memos over a large enumerated family of distinct realistic arguments: the log-likelihood
     grid of one mutation for EVERY (depth, alternate count) in a depth range.  -> {key: digest of the argument bytes}."""
@@ -247,7 +289,7 @@ def main(tier, seed):
     chk.rule = ("every history of length <=2 (3 thorough) over {particle-Gibbs update per proposal, subtree update, data-point move, prune-regraft, concentration change, "
                 "cache clear}, once with the clears the run loop performs and once without; n=2: ALL random outcomes, n=3: deviation bound 1 (2 thorough); every call "
                 "of the four memoised functions shadowed by the wrapped original; key part: the memo keys of every single-mutation likelihood grid for all (depth <= 800 (1100), alternate count) pairs "
-                "(320k / 600k distinct arguments) are pairwise different; non-trivial = history whose exploration made >= 1 cache hit")
+                "(320k / 600k distinct arguments) are pairwise different; eviction part: 2600 (9000) distinct children lists plus repeats in one process without clears, every call shadowed; non-trivial = history whose exploration made >= 1 cache hit")
     chk.assumptions = ["tolerance 1e-9 on arrays and log-probabilities (the caches are keyed order-insensitively, so last-bit differences are expected and are C18's business)",
                        "all memo caches are emptied at the start of every execution; warm states arise from the history itself"]
     L = 2 if tier == "quick" else 3
@@ -295,6 +337,17 @@ def main(tier, seed):
         for pr in r["problems"]:
             chk.violation({"sub": "memo", "what": pr["problems"][0].split(":")[0][:40], "mode": cfg["mode"]}, {"config": cfg, "problem": pr}, {"config": cfg, "choices": pr["choices"]})
     key_family(chk, tier)
+    # beyond the capacity of the memos (eviction, freed arrays, repeats as new objects)
+    ev_items = [(2600 if tier == "quick" else 9000, nc, g, d, seed + 1) for (nc, g, d) in ((3, 9, 1), (4, 5, 2), (2, 21, 1))]
+    for r in pool_imap(eviction_case, ev_items, chunksize=1):
+        chk.transitions += r["n"]
+        chk.traces_validated += r["n"]
+        chk.states.add(json.dumps(["eviction", list(r["item"])]))
+        chk.nontrivial.add(json.dumps(["eviction", list(r["item"])]))
+        for k, v in r["stats"].items():
+            hits_total["eviction: " + k] = hits_total.get("eviction: " + k, 0) + v
+        for pr in r["problems"]:
+            chk.violation({"sub": "memo-eviction", "what": pr.split(":")[1].strip()[:40] if ":" in pr else pr[:40]}, {"problem": pr, "lists,children,grid,samples,seed": list(r["item"])}, {"eviction": list(r["item"])})
     chk.note("shadowed_calls", hits_total)
     chk.caps.append("n=2 histories of length <=2: all random outcomes; n=3 and length-3 histories: deviation-bounded with an execution cap")
     chk.sample({"history": ["pg:semi-adapted", "alpha"], "mode": "library", "n": 2})
@@ -305,6 +358,10 @@ def main(tier, seed):
 def replay(path):
     body = json.load(open(path))
     rp = body["replay"]
+    if "eviction" in rp:
+        r = eviction_case(tuple(rp["eviction"]))
+        print(r["problems"], r["stats"])
+        return 1 if r["problems"] else 0
     if "key_family" in rp:
         lo, hi, G = rp["key_family"]
         r = key_family_work((lo, hi, G))
